@@ -1,6 +1,7 @@
 package t_wal
 
 import (
+	"errors"
 	"bytes"
 	"fmt"
 	"io"
@@ -30,11 +31,21 @@ type HEntry struct {
 	ID      uint64
 	Epoch   uint64
 	Payload []byte
+	// failAfter > 0: the encoder writes failAfter-1 bytes of the encoding and then reports an
+	// error, as generated encoders do when a later field exceeds a limit. Not serialised.
+	failAfter int
 }
+
+var errRejected = errors.New("entry rejected by its encoder")
 
 func (e *HEntry) WALEpoch() uint64 { return e.Epoch }
 
 func (e *HEntry) MarshalCBOR(w io.Writer) error {
+	if e.failAfter > 0 {
+		full := encode(HEntry{ID: e.ID, Epoch: e.Epoch, Payload: e.Payload})
+		_, _ = w.Write(full[:min(e.failAfter-1, len(full))])
+		return errRejected
+	}
 	cw := cbg.NewCborWriter(w)
 	if _, err := cw.Write([]byte{0x83}); err != nil {
 		return err
@@ -208,7 +219,7 @@ func TestC11Histories(t *testing.T) {
 		m := &model{}
 		var trace []string
 		nextID := uint64(1)
-		rotations, purges, restarts, tornInside, reusedOld, appendAfterTorn := 0, 0, 0, 0, 0, 0
+		rotations, purges, restarts, tornInside, reusedOld, appendAfterTorn, rejected := 0, 0, 0, 0, 0, 0, 0
 		tornTailPresent := false
 		steps := rapid.IntRange(2, vev.IntEnv("VERIF_C11_STEPS", 25)).Draw(t, "steps")
 		syncModelAfterAppend := func(where string) {
@@ -283,7 +294,7 @@ func TestC11Histories(t *testing.T) {
 			checkAll(t, "after "+how, w, m, trace)
 		}
 		for s := 0; s < steps; s++ {
-			action := rapid.SampledFrom([]string{"append", "append", "append", "append-big", "append-burst", "append-burst", "rotate", "close", "purge", "purge", "reopen", "crash", "torn", "all"}).Draw(t, "action")
+			action := rapid.SampledFrom([]string{"append", "append", "append", "append-big", "append-burst", "append-burst", "append-rejected", "rotate", "close", "purge", "purge", "reopen", "crash", "torn", "all"}).Draw(t, "action")
 			switch action {
 			case "append-burst":
 				// enough large entries in a row that the 1 MiB threshold is crossed inside one
@@ -296,6 +307,28 @@ func TestC11Histories(t *testing.T) {
 					doAppend(e)
 				}
 				trace = append(trace, fmt.Sprintf("burst(%d)", k))
+			case "append-rejected":
+				// an entry whose own encoder fails part-way: the append is refused and must
+				// leave no trace in what later reads return (the log may open a new file first)
+				size := rapid.IntRange(0, 300).Draw(t, "size")
+				e := HEntry{ID: nextID, Epoch: uint64(rapid.IntRange(0, 12).Draw(t, "epoch")), Payload: vgen.DetBytes(size, "p", nextID)}
+				nextID++
+				e.failAfter = 1 + rapid.IntRange(0, len(encode(e))).Draw(t, "failafter")
+				before := walSizes(dir)
+				err := w.Append(e)
+				trace = append(trace, fmt.Sprintf("append-rejected(id=%d,after %dB): %v", e.ID, e.failAfter-1, err))
+				for name := range walSizes(dir) {
+					if _, ok := before[name]; !ok {
+						if m.active != nil {
+							m.active.closed = true
+							rotations++
+						}
+						m.active = &mfile{name: name}
+						m.files = append(m.files, m.active)
+					}
+				}
+				rejected++
+				checkAll(t, "after a rejected append", w, m, trace)
 			case "append", "append-big":
 				size := rapid.IntRange(0, 300).Draw(t, "size")
 				if action == "append-big" {
@@ -347,7 +380,9 @@ func TestC11Histories(t *testing.T) {
 							vev.Fail(t, c11, "C11/purge/removed-active-file", "Purge(%d) removed the active file; trace=%v", keep, trace)
 						}
 						m.remove(f)
-					} else if f.closed && f != m.active && allBelow {
+					} else if f.closed && f != m.active && allBelow && len(f.entries) > 0 {
+						// (a closed file without any entry - left by a refused append or a crash right
+						// after rotation - holds nothing the clause speaks about: no demand either way)
 						vev.Fail(t, c11, "C11/purge/stale-file-kept", "Purge(%d) kept closed file %s although all its %d entries are below that epoch; trace=%v", keep, f.name, len(f.entries), trace)
 					}
 				}
@@ -442,7 +477,7 @@ func TestC11Histories(t *testing.T) {
 		reopen("final reopen")
 		nt := (rotations > 0 && purges > 0 && restarts >= 3) || tornInside > 0
 		vev.Case(c11, vev.Digest(fmt.Sprint(trace)), nt, "history", fmt.Sprintf("rotation:%v", rotations > 0), fmt.Sprintf("purge:%v", purges > 0), fmt.Sprintf("restarts>=2:%v", restarts >= 3), fmt.Sprintf("torn-inside:%v", tornInside > 0),
-			fmt.Sprintf("append-after-torn-tail:%v", appendAfterTorn > 0), fmt.Sprintf("appended-to-file-of-earlier-run:%v", reusedOld > 0))
+			fmt.Sprintf("append-after-torn-tail:%v", appendAfterTorn > 0), fmt.Sprintf("appended-to-file-of-earlier-run:%v", reusedOld > 0), fmt.Sprintf("rejected-append:%v", rejected > 0))
 		vev.Sample(c11, func() any { return map[string]any{"kind": "history", "trace": trace, "files_at_end": m.names()} })
 	})
 }
